@@ -389,7 +389,8 @@ def strict_rule_config(rng, optimiser='evo'):
 
 def invalid_initial_config(rng):
     """every supplied initial graph violates a custom rule (random search generates its own start)"""
-    cfg = random_config(rng, optimiser=rng.choice(['random_search', 'random_mutation']), multi=False)
+    # (RandomMutationOptimizer mutates its initial individual and cannot start without one: not generated)
+    cfg = random_config(rng, optimiser='random_search', multi=False)
     cfg.update({'rule': ['no_label', 'c', rng.choice(['false', 'raise'])], 'initial': 'chain', 'node_types': ['a', 'b'],
                 'num_of_generations': rng.choice([2, 4])})
     cfg['objective'] = {'metrics': [rng.choice(['neg_size', 'size'])], 'multi': False}
